@@ -530,7 +530,7 @@ func check(args []string) int {
 			"max_query_ms":         float64(maxQ.Microseconds()) / 1000,
 			"load_s":               loadDur.Seconds(),
 			"bounds":               spec.boundsText(*tier),
-			"stubs":                "S1 map order=insertion; S2 reflect model; S3 fmt model; S4 strings/strconv host leaves; S6 errors.Is/As model; S7 rand.Perm identity; S8 time fixed; S9 runtime.FuncForPC synthetic; fuel: depth 600, 2e7 steps/path, 64 values/concretise",
+			"stubs":                "S1 map order=insertion; S2 reflect model; S3 fmt model; S4 strings/strconv/unicode host functions on concrete strings; S5/S13 sort models; S6 errors.Is/As model; S7 rand.Perm identity; S8 time fixed; S9 runtime.FuncForPC synthetic; S10 runtime panics; S11 package init; S12 sync/atomic single-threaded; fuel: depth 600, 2e7 steps/path, 64 values/concretise",
 			"known_findings_observed": knownObserved,
 			"translator_validation_mismatches": mismatches,
 			"inconclusive":         inconclusive,
